@@ -48,17 +48,26 @@ struct Config {
     exceptions_first: bool,
     /// look words up with the harness lower-caser (letters beyond ASCII) instead of `AsciiLowerCaser`
     mixed: bool,
+    /// when set, the exception list goes through `insert_exceptions` as ONE string:
+    /// (leading text, separator between entries, trailing text)
+    list_api: Option<(String, String, String)>,
 }
 
 impl Config {
     fn json(&self, word: &str) -> Value {
-        json!({"kind": "lookup", "patterns": self.patterns, "exceptions": self.exceptions, "exceptions_first": self.exceptions_first, "mixed_alphabet": self.mixed, "word": word,
+        json!({"kind": "lookup", "patterns": self.patterns, "exceptions": self.exceptions, "exceptions_first": self.exceptions_first, "mixed_alphabet": self.mixed, "exception_list_text": self.list_text(), "list_api": self.list_api.as_ref().map(|(a, b, c)| vec![a.clone(), b.clone(), c.clone()]), "word": word,
                "reproduce": format!("let mut h = hyphenate::Hyphenator::default(); {} h.calculate_indices(&{}, {:?}).collect::<Vec<_>>()",
                     self.build_text(), if self.mixed { "L /* a LowerCaser with a/A, é/É, ḁ/Ḁ, 𝐚/𝐀 */" } else { "hyphenate::AsciiLowerCaser::default()" }, word)})
     }
+    fn list_text(&self) -> Option<String> {
+        self.list_api.as_ref().map(|(lead, sep, trail)| format!("{lead}{}{trail}", self.exceptions.join(sep)))
+    }
     fn build_text(&self) -> String {
         let p = format!("h.load_patterns({:?});", self.patterns.join(" "));
-        let e: String = self.exceptions.iter().map(|e| format!("h.insert_exception({e:?});")).collect();
+        let e: String = match self.list_text() {
+            Some(t) => format!("h.insert_exceptions({t:?});"),
+            None => self.exceptions.iter().map(|e| format!("h.insert_exception({e:?});")).collect(),
+        };
         if self.exceptions_first {
             format!("{e} {p}")
         } else {
@@ -88,7 +97,9 @@ impl Config {
                 h.load_patterns(p);
             }
         }
-        if !self.exceptions_first {
+        if let Some(t) = self.list_text() {
+            h.insert_exceptions(&t);
+        } else if !self.exceptions_first {
             if self.exceptions.len() == 2 && self.exceptions[0].len() % 2 == 0 {
                 // the list API: one entry per line, blank lines, CR LF and surrounding blanks allowed
                 h.insert_exceptions(&format!("\n {} \r\n\n{}", self.exceptions[0], self.exceptions[1]));
@@ -584,7 +595,7 @@ fn main() {
         if case["kind"] == "plain" {
             check_plain(0, &plain, &plain_patterns, &plain_exceptions, &[(wl, vec![word])], &mut acc);
         } else {
-            let cfg = Config { patterns: strs(&case["patterns"]), exceptions: strs(&case["exceptions"]), exceptions_first: case["exceptions_first"].as_bool().unwrap_or(false), mixed: case["mixed_alphabet"].as_bool().unwrap_or(false) };
+            let cfg = Config { patterns: strs(&case["patterns"]), exceptions: strs(&case["exceptions"]), exceptions_first: case["exceptions_first"].as_bool().unwrap_or(false), mixed: case["mixed_alphabet"].as_bool().unwrap_or(false), list_api: case["list_api"].as_array().map(|a| (a[0].as_str().unwrap_or("").to_string(), a[1].as_str().unwrap_or("").to_string(), a[2].as_str().unwrap_or("").to_string())) };
             check_config(0, &cfg, &[(wl, vec![word])], &mut acc);
         }
         ctx.finish_replay(acc);
@@ -665,7 +676,7 @@ fn main() {
         let (u, ex, around) = (&u, &ex, &around);
         ctx.family("exception-vs-pattern", &format!("(no pattern or one of the {} patterns with 1..3 letters, digits {{none,1,2,3,8,9}}) x one of the {} exception entries (every word of length 2..{} over {{a,b}} with every hyphen placement, plus leading/trailing hyphen) x the entry's word in every letter case and its 6 neighbours (one letter more/less at either end)", nu - 1, ne, ctx.pick(3, 4)), nu * ne, |idx, acc| {
             let (pi, ei) = ((idx / ne) as usize, (idx % ne) as usize);
-            let cfg = Config { patterns: if u[pi].is_empty() { vec![] } else { vec![u[pi].clone()] }, exceptions: vec![ex[ei].clone()], exceptions_first: false, mixed: false };
+            let cfg = Config { patterns: if u[pi].is_empty() { vec![] } else { vec![u[pi].clone()] }, exceptions: vec![ex[ei].clone()], exceptions_first: false, mixed: false, list_api: None };
             check_config(idx, &cfg, &around[ei], acc);
             if idx % 99991 == 23 {
                 acc.sample(idx, || json!({"patterns": cfg.patterns, "exceptions": cfg.exceptions}));
@@ -690,7 +701,7 @@ fn main() {
             if j <= i {
                 return;
             }
-            let cfg = Config { patterns: vec![u[i as usize].clone(), u[j as usize].clone()], exceptions: vec![ex[ei].clone()], exceptions_first: false, mixed: false };
+            let cfg = Config { patterns: vec![u[i as usize].clone(), u[j as usize].clone()], exceptions: vec![ex[ei].clone()], exceptions_first: false, mixed: false, list_api: None };
             check_config(idx, &cfg, &around[ei], acc);
         });
     }
@@ -702,7 +713,7 @@ fn main() {
         let (ex, pats) = (&ex, &pats);
         ctx.family("exception-lists-of-two", &format!("every ordered pair of the {ne} exception entries (length 2..{}) x {np} pattern sets of size <= 1 x both entries' words in every case and their neighbours", ctx.pick(3, 4)), ne * ne * np, |idx, acc| {
             let (a, b, pi) = ((idx / (ne * np)) as usize, (idx / np % ne) as usize, (idx % np) as usize);
-            let cfg = Config { patterns: if pats[pi].is_empty() { vec![] } else { vec![pats[pi].clone()] }, exceptions: vec![ex[a].clone(), ex[b].clone()], exceptions_first: false, mixed: false };
+            let cfg = Config { patterns: if pats[pi].is_empty() { vec![] } else { vec![pats[pi].clone()] }, exceptions: vec![ex[a].clone(), ex[b].clone()], exceptions_first: false, mixed: false, list_api: None };
             let strip = |s: &str| s.replace('-', "");
             if strip(&ex[a]) == strip(&ex[b]) && ex[a] != ex[b] {
                 acc.count("same_word_entered_twice");
@@ -795,7 +806,7 @@ fn main() {
         let (longs, shorts, excs) = (&longs, &shorts, &excs);
         ctx.family("long-with-short", &format!("{nl} long patterns (L = 16,17,32) x {ns} patterns with 1..2 letters (digits {{none,2,9}}) x {ne} exception lists (none, 17 letters, 32 letters, 20 letters without hyphen) x the long-pattern words"), nl * ns * ne, |idx, acc| {
             let (li, si, ei) = ((idx / (ns * ne)) as usize, (idx / ne % ns) as usize, (idx % ne) as usize);
-            let cfg = Config { patterns: vec![longs[li].clone(), shorts[si].clone()], exceptions: if excs[ei].is_empty() { vec![] } else { vec![excs[ei].clone()] }, exceptions_first: false, mixed: false };
+            let cfg = Config { patterns: vec![longs[li].clone(), shorts[si].clone()], exceptions: if excs[ei].is_empty() { vec![] } else { vec![excs[ei].clone()] }, exceptions_first: false, mixed: false, list_api: None };
             check_config(idx, &cfg, words, acc);
         });
     }
@@ -849,7 +860,7 @@ fn main() {
         let (cased, pats) = (&cased, &pats);
         ctx.family("exception-entry-case", &format!("{ne} exception entries of length 2..3 with at least one upper-case letter x {np} pattern sets of size <= 1 x the word in every case and its neighbours"), ne * np, |idx, acc| {
             let (ei, pi) = ((idx / np) as usize, (idx % np) as usize);
-            let cfg = Config { patterns: if pats[pi].is_empty() { vec![] } else { vec![pats[pi].clone()] }, exceptions: vec![cased[ei].clone()], exceptions_first: false, mixed: false };
+            let cfg = Config { patterns: if pats[pi].is_empty() { vec![] } else { vec![pats[pi].clone()] }, exceptions: vec![cased[ei].clone()], exceptions_first: false, mixed: false, list_api: None };
             acc.count("exception_entry_with_upper_case_letter");
             check_config(idx, &cfg, &words_around(&cased[ei]), acc);
         });
@@ -860,7 +871,7 @@ fn main() {
         let (u, ex, around) = (&u, &ex, &around);
         ctx.family("exceptions-before-patterns", &format!("as exception-vs-pattern ({} patterns with 1..{} letters x {ne} entries of length 2..3), but insert_exception is called before load_patterns", nu - 1, ctx.pick(2, 3)), nu * ne, |idx, acc| {
             let (pi, ei) = ((idx / ne) as usize, (idx % ne) as usize);
-            let cfg = Config { patterns: if u[pi].is_empty() { vec![] } else { vec![u[pi].clone()] }, exceptions: vec![ex[ei].clone()], exceptions_first: true, mixed: false };
+            let cfg = Config { patterns: if u[pi].is_empty() { vec![] } else { vec![u[pi].clone()] }, exceptions: vec![ex[ei].clone()], exceptions_first: true, mixed: false, list_api: None };
             check_config(idx, &cfg, &around[ei], acc);
         });
     }
@@ -899,7 +910,7 @@ fn main() {
         let (ue, ex, around) = (&ue, &ex, &around);
         ctx.family("mixed-exception-vs-pattern", &format!("(no pattern or one of the {} patterns with 1..2 letters over {{a, ḁ, 𝐚}}, digits {{none,1,2,9}}) x one of the {ne} exception entries of length 2..3 over these letters with every hyphen placement x the entry's word in every case and its neighbours", nu - 1), nu * ne, |idx, acc| {
             let (pi, ei) = ((idx / ne) as usize, (idx % ne) as usize);
-            let cfg = Config { patterns: if ue[pi].is_empty() { vec![] } else { vec![ue[pi].clone()] }, exceptions: vec![ex[ei].clone()], exceptions_first: false, mixed: true };
+            let cfg = Config { patterns: if ue[pi].is_empty() { vec![] } else { vec![ue[pi].clone()] }, exceptions: vec![ex[ei].clone()], exceptions_first: false, mixed: true, list_api: None };
             check_config(idx, &cfg, &around[ei], acc);
         });
     }
@@ -915,7 +926,7 @@ fn main() {
         let (u, ex, around) = (&u, &ex, &around);
         ctx.family("exception-vs-digits-5-to-8", &format!("(no pattern or one of the {} patterns with 1..2 letters, digits {{none,5,6,7,8}}: both sides of the scores 6/7 under which exceptions are stored) x {ne} exception entries of length 2..3 x the entry's word in every case and its neighbours", nu - 1), nu * ne, |idx, acc| {
             let (pi, ei) = ((idx / ne) as usize, (idx % ne) as usize);
-            let cfg = Config { patterns: if u[pi].is_empty() { vec![] } else { vec![u[pi].clone()] }, exceptions: vec![ex[ei].clone()], exceptions_first: false, mixed: false };
+            let cfg = Config { patterns: if u[pi].is_empty() { vec![] } else { vec![u[pi].clone()] }, exceptions: vec![ex[ei].clone()], exceptions_first: false, mixed: false, list_api: None };
             if u[pi].contains('6') || u[pi].contains('7') {
                 acc.count("exception_against_pattern_digit_6_or_7");
             }
@@ -930,7 +941,7 @@ fn main() {
             Config { exceptions: vec!["-".into()], ..Default::default() },
             Config { exceptions: vec!["a".into()], patterns: vec!["1a1".into()], ..Default::default() },
             Config { exceptions: vec!["a-".into(), "-a".into()], patterns: vec!["1a1".into()], ..Default::default() },
-            Config { exceptions: vec!["".into()], patterns: vec!["1a1".into()], exceptions_first: true, mixed: false },
+            Config { exceptions: vec!["".into()], patterns: vec!["1a1".into()], exceptions_first: true, mixed: false, list_api: None },
             Config { patterns: vec!["é1".into()], mixed: true, ..Default::default() },
         ];
         let words: Vec<(Vec<char>, Vec<String>)> = ["", "a", "aa", "aaa", "é", "éa"].iter().map(|w| (w.chars().collect::<Vec<char>>(), case_variants(&w.chars().collect::<Vec<char>>(), true))).collect();
@@ -988,6 +999,42 @@ fn main() {
         });
     }
 
+    // F11: the list API: `insert_exceptions` is documented as "separate words separated by whitespace"
+    {
+        let seps: Vec<(&str, &str, &str)> = vec![("", " ", ""), ("", "  ", ""), ("", "\t", ""), ("", "\n", ""), ("", "\r\n", ""), ("", " \n ", ""), (" ", " ", " "), ("\n", "\n", "\n"), (" \t", "\t", "\n")];
+        let two: Vec<String> = exception_menu(2, 3).into_iter().filter(|e| !e.starts_with('-') && !e.ends_with('-')).collect();
+        let three: Vec<String> = exception_menu(2, 2).into_iter().filter(|e| !e.starts_with('-') && !e.ends_with('-')).collect();
+        // with no pattern nothing is hyphenated, with a1 b1 every position is: every entry differs from one of them
+        let psets: Vec<Vec<String>> = vec![vec![], vec!["a1".into(), "b1".into()]];
+        let (n2, n3, ns, np) = (two.len() as u64, three.len() as u64, seps.len() as u64, psets.len() as u64);
+        let total = (n2 * n2 + n3 * n3 * n3) * ns * np;
+        let (two, three, seps, psets) = (&two, &three, &seps, &psets);
+        ctx.family("exception-list-separators", &format!("every ordered pair of the {n2} exception entries of length 2..3 and every ordered triple of the {n3} entries of length 2, given to insert_exceptions as one string joined by each of {ns} separators (blank, two blanks, tab, newline, CR LF, blank-newline-blank, and blank / newline / tab with leading and trailing white space) x pattern sets {{none, a1 b1}} x every listed word in every case and its neighbours"), total, |idx, acc| {
+            let d = vcore::digits(idx, &[n2 * n2 + n3 * n3 * n3, ns, np]);
+            let entries: Vec<String> = if d[0] < n2 * n2 {
+                vec![two[(d[0] / n2) as usize].clone(), two[(d[0] % n2) as usize].clone()]
+            } else {
+                let t = d[0] - n2 * n2;
+                vec![three[(t / (n3 * n3)) as usize].clone(), three[(t / n3 % n3) as usize].clone(), three[(t % n3) as usize].clone()]
+            };
+            let (lead, sep, trail) = seps[d[1] as usize];
+            if !sep.contains('\n') {
+                acc.count("exception_list_separated_by_space_or_tab");
+            }
+            let mut words: Vec<(Vec<char>, Vec<String>)> = vec![];
+            for e in &entries {
+                for w in words_around(e) {
+                    if !words.iter().any(|x| x.0 == w.0) {
+                        words.push(w);
+                    }
+                }
+            }
+            let cfg = Config { patterns: psets[d[2] as usize].clone(), exceptions: entries, exceptions_first: false, mixed: false, list_api: Some((lead.to_string(), sep.to_string(), trail.to_string())) };
+            check_config(idx, &cfg, &words, acc);
+        });
+    }
+
+    ctx.require("exception_list_separated_by_space_or_tab", "an exception list whose entries are separated by blanks or tabs only goes through insert_exceptions");
     ctx.require("exception_against_pattern_digit_6_or_7", "an exception entry meets a pattern digit equal to the scores 6/7 under which exceptions are stored");
     ctx.require("empty_word_looked_up", "the empty word is looked up");
     ctx.require("lookup_with_nothing_loaded", "a hyphenator without any pattern or exception is asked");
